@@ -93,7 +93,9 @@ func Split(src *choice.Src, c *Cfg, n int) []*Cfg {
 // accepted by `build` (which does not type-check), but cannot be compiled.
 func AddFakeWorld(src *choice.Src, c *Cfg, dotPkg bool) {
 	aliases := []KV{{"a", "example.com/a"}, {"ab", "example.com/ab/v2"}, {"abc", "example.com/x/abc"},
-		{"pkg", "my/pkg"}, {"pkg.sub", "other/sub"}, {"http", "net/http"}, {"h", "example.com/h"}, {"fxx", "example.com/fxx"}}
+		{"pkg", "my/pkg"}, {"pkg.sub", "other/sub"}, {"http", "net/http"}, {"h", "example.com/h"}, {"fxx", "example.com/fxx"},
+		// targets that themselves begin with an alias (their own, or another one: expansion must not be repeated)
+		{"log", "log/slog"}, {"os", "os/exec"}, {"p", "q/x"}, {"q", "p/y"}, {"fmt", "fmt/v2"}}
 	n := src.Range("fake.naliases", 1, 5)
 	seen := map[string]bool{}
 	for _, kv := range c.Meta.Imports {
@@ -106,7 +108,7 @@ func AddFakeWorld(src *choice.Src, c *Cfg, dotPkg bool) {
 			c.Meta.Imports = append(c.Meta.Imports, kv)
 		}
 	}
-	refs := []string{"abc", "ab", "a", "pkg", "pkg.sub", "http", "h", "fxx", `"example.com/quoted/p"`, "unaliased/long/path", "abcd", "fx"}
+	refs := []string{"abc", "ab", "a", "pkg", "pkg.sub", "http", "h", "fxx", `"example.com/quoted/p"`, "unaliased/long/path", "abcd", "fx", "log", "os", "p", "q", "p/sub", "log/more"}
 	used := map[string]bool{}
 	for _, s := range c.Services {
 		used[s.Name] = true
